@@ -106,14 +106,21 @@ class C04(CoreProp):
             if not h.strip() or h != h.strip():
                 h = b"<" + h.strip() + b">"
             nodes = self.nodes(g, rng, rng.choice([0, 1, 2, 3]))
+            if rng.random() < 0.3:
+                # the SAME expression text also occurs unescaped (`!= e`) in a branch that is never taken, before or
+                # after the escaped use: how one code node is compiled must not depend on another one with equal text
+                codes = [n for n in nodes if n[0] == 'code']
+                if codes:
+                    twin = ('cond', ('id', b"never"), [('code', codes[0][1], False, codes[0][3])], None)
+                    nodes.insert(0 if rng.random() < 0.7 else len(nodes), twin)
             other = rng.choice([b"x", b"ok", b"<keep>"])
 
             def data(v):
                 return {b"h": v, b"ho": {b"k": v, b"z": other}, b"ha": [v] + ([other] if rng.random() < 0.3 else []),
-                        b"p": pflag}
+                        b"p": pflag, b"never": False}
             pflag = rng.random() < 0.5
             dh = data(h)
-            dm = {b"h": MARK, b"ho": {b"k": MARK, b"z": other}, b"ha": [MARK] + dh[b"ha"][1:], b"p": pflag}
+            dm = {b"h": MARK, b"ho": {b"k": MARK, b"z": other}, b"ha": [MARK] + dh[b"ha"][1:], b"p": pflag, b"never": False}
             cases.append({"nodes": ser(nodes), "datas": [ser(dh), ser(dm)], "h": h.hex(), "m": MARK.hex()})
         return cases
 
